@@ -18,7 +18,7 @@ STUBS = ["call-exact: read likelihood of the target sample -> ln L_A(genotype) (
          "assemble: DenovoMCMC -> posterior with symbolic probabilities (as in C13)"]
 ASSUMES = ["self-composition: the same path condition, two runs differing only in the other samples' data; the target sample's outputs must be equal terms",
            "pools / samples sharing one alignment file: the C06 driver (symbolic alignments behind the pysam contract stub) -- every column's read matrix is the concatenation of its own members' filtered pileups"]
-BOUNDS = {"quick": "call-exact: ploidy 2, 2-3 alleles, 2 samples + alone + swapped order; call: 2 samples, masks as in C16; assemble: C13 scenarios with 2 samples, each with and without the second sample; pools: all assignments of 3 samples to <= 2 pools",
+BOUNDS = {"quick": "wiring: assemble / call / call-exact (both paths) / call-pedigree with 3 samples of ploidy 2,3,4, distinct symbolic inbreeding, temperatures, reads and counts, 3 of the 6 sample orders (thorough: all 6); shared alignment file: pool and two-sample layouts, 2 alignments (thorough 3); call-exact: ploidy 2, 2-3 alleles, 2 samples + alone + swapped order; call: 2 samples, masks as in C16; assemble: C13 scenarios with 2 samples, each with and without the second sample; pools: all assignments of 3 samples to <= 2 pools",
           "thorough": "adds ploidy 3 and 3-sample scenarios"}
 OUTSIDE = "physically merged BAM files and --sample-pool file parsing from disk; equality of MCMC output itself across runs is C08's seeding clause"
 TASKS_PER_CHILD = 2
@@ -38,6 +38,12 @@ def configs(tier):
     # members' reads (shared driver with C06: symbolic alignments behind the pysam contract stub)
     for layout in ("two", "pool"):
         out.append(dict(group="encode", k=2, ns=1, small=True, layout=layout))
+    # per-sample wiring of the four programs: three samples with distinct ploidy / symbolic inbreeding / temperatures / reads
+    from checks import wiring
+
+    for prog in wiring.PROGS:
+        for order in ((0, 3, 5) if tier == "quick" else range(6)):
+            out.append(dict(group="wiring", prog=prog, order=order))
     if tier != "quick":
         for layout in ("two", "pool"):
             out.append(dict(group="encode", k=3, ns=1, small=True, layout=layout))
@@ -59,6 +65,12 @@ def run_config(c, col):
     with prof:
         globals()["_run_" + c["group"]](c, col)
     col.functions |= set(prof.names())
+
+
+def _run_wiring(c, col):
+    from checks import wiring
+
+    wiring.run(c, col)
 
 
 def _run_encode(c, col):
@@ -415,6 +427,10 @@ def replay(v):
         from checks import c06
 
         return c06._replay_encode(v)
+    if c["group"] == "wiring":
+        from checks import wiring
+
+        return wiring.replay_real(v, wiring.run)
     if c["group"] in ("call", "assemble", "pools"):
         return _replay_driver(c, m, v)
     return False, "kind?"
@@ -483,10 +499,16 @@ def _replay_driver(c, m, v):
     import importlib
 
     real = {n: importlib.import_module(n) for n in ("mchap.application.call", "mchap.application.assemble", "mchap.application.baseclass", "mchap.io.vcf.formatfields",
-                                                    "mchap.io.vcf.infofields", "mchap.io.vcf.columns", "mchap.calling.classes", "mchap.assemble.classes", "mchap.application.arguments")}
+                                                    "mchap.io.vcf.infofields", "mchap.io.vcf.columns", "mchap.calling.classes", "mchap.assemble.classes", "mchap.application.arguments",
+                                                    "mchap.application.call_exact", "mchap.application.call_pedigree", "mchap.calling.exact", "mchap.pedigree.classes", "mchap.assemble.mcmc")}
     saved_attrs = [(real[mn], a_, getattr(real[mn], a_)) for mn, a_ in (("mchap.application.call", "CallingMCMC"), ("mchap.application.call", "minimum_error_correction"), ("mchap.application.call", "qual_of_prob"),
                                                                    ("mchap.application.assemble", "DenovoMCMC"), ("mchap.application.assemble", "minimum_error_correction"),
-                                                                   ("mchap.application.assemble", "qual_of_prob"), ("mchap.application.assemble", "natural_log_to_log10"))]
+                                                                   ("mchap.application.assemble", "qual_of_prob"), ("mchap.application.assemble", "natural_log_to_log10"),
+                                                                   ("mchap.application.call_exact", "minimum_error_correction"), ("mchap.application.call_exact", "genotype_likelihoods"),
+                                                                   ("mchap.application.call_exact", "genotype_posteriors"), ("mchap.application.call_exact", "posterior_mode"),
+                                                                   ("mchap.application.call_pedigree", "minimum_error_correction"), ("mchap.application.call_pedigree", "PedigreeCallingMCMC"),
+                                                                   ("mchap.application.call_exact", "qual_of_prob"), ("mchap.application.call_exact", "natural_log_to_log10"),
+                                                                   ("mchap.application.call_pedigree", "qual_of_prob"), ("mchap.application.call_pedigree", "natural_log_to_log10"))]
     saved = (E.load, E.fresh_int, E.fresh_real)
     E.load = lambda name, keep_init=False: real[name]
     E.fresh_int = lambda ctx, name, lo, hi: z3.IntVal(max(lo, min(hi, int(m.get(name, lo)))))
